@@ -3,7 +3,8 @@ from __future__ import annotations
 
 from harness.core import Prop
 
-VAL_SQL = {"n7": "7", "n42": "42", "sx": "'x'", "sq": "'it''s'", "expr": "1 + 2", "nneg": "-5"}
+VAL_SQL = {"n7": "7", "n42": "42", "sx": "'x'", "sq": "'it''s'", "expr": "1 + 2", "nneg": "-5", "fcoal": "coalesce(null, null, 7)",
+           "fconc": "concat('he', 'l', 'lo')"}
 OK_STATUS = [("Statement executed successfully.",)]
 
 
@@ -40,7 +41,7 @@ class C15(Prop):
         "UNSET of a variable that is not set may succeed or raise ProgrammingError (the property does not say)",
     ]
     ALLN = {"V", "V1", "V10", "B", "AB"}
-    ALLV = {"n7", "n42", "sx", "sq", "expr", "nneg"}
+    ALLV = {"n7", "n42", "sx", "sq", "expr", "nneg", "fcoal", "fconc"}
 
     def consts(self, tier):
         return {"Conns": {"c1", "c2"}, "Names": self.ALLN, "Vals": self.ALLV, "CasingsUsed": {"lower", "upper", "mixed"}, "CursUsed": {1, 2}}
@@ -68,7 +69,7 @@ class C15(Prop):
             dict(name="walks_small", mode="walks", depth=12, num=2000 if big else 400, seed_offset=5,
                  consts=dict(small, CursUsed={1, 2}, Conns={"c1", "c2"}, Names={"V", "V1"}, Vals={"n7", "n42", "sx"}, Depth=12)),
             dict(name="edges", mode="edges", sample=None if big else 3000,
-                 consts=dict(base, Conns={"c1", "c2"}, Names={"V", "V1"}, Vals={"n7", "sx", "expr", "nneg"}, Depth=5)),
+                 consts=dict(base, Conns={"c1", "c2"}, Names={"V", "V1"}, Vals={"n7", "sx", "expr", "nneg", "fcoal", "fconc"}, Depth=5)),
             dict(name="edges_prefix", mode="edges", sample=None if big else 3000,
                  consts=dict(base, Conns={"c1"}, Names={"V", "V1", "V10"}, Vals={"n7", "n42"}, Depth=6)),
             dict(name="walks", mode="walks", depth=10, num=3000 if big else 600,
@@ -116,6 +117,10 @@ class C15(Prop):
                 sql = f"{kw('select')} 'cost $5'"
             elif k == "bind":
                 sql = f"{kw('select')} %s"
+            elif k == "lit2":
+                sql = f"{kw('select')} 'US$$', ${sp}"
+            elif k == "setsel":
+                sql = f"{kw('set')} {sp} = {VAL_SQL[op['v']]}; {kw('select')} ${sp}"
             elif k == "other":
                 sql = {"cluster_by": "alter table vt_other cluster by (x)", "nop_regex": "call vt_nop()", "select1": "select 1"}[op["w"]]
             else:
@@ -123,9 +128,12 @@ class C15(Prop):
             try:
                 if k == "bind":
                     cur.execute(sql, (f"p ${sp} q",))
+                    rows = cur.fetchall()
+                elif k == "setsel":
+                    rows = list(conns[op["c"]].execute_string(sql))[-1].fetchall()
                 else:
                     cur.execute(sql)
-                rows = cur.fetchall()
+                    rows = cur.fetchall()
                 if k == "other":
                     obs = {"res": "ok" if len(rows) == 1 else "badstatus", "vals": []}
                 elif k in ("set", "unset"):
